@@ -286,19 +286,32 @@ func typeWriterArms(w *genWalker, tw *ast.FuncDecl, sw *ast.SwitchStmt) []twArm 
 		if !ok || len(as.Lhs) != 2 || len(as.Rhs) != 1 {
 			continue
 		}
-		ix, ok := as.Rhs[0].(*ast.IndexExpr)
-		if !ok {
-			continue
-		}
-		if se, ok := ix.Index.(*ast.SelectorExpr); !ok || se.Sel.Name != "Kind" {
-			continue
-		}
 		okId, isId := as.Lhs[1].(*ast.Ident)
 		cond, isCond := ifs.Cond.(*ast.Ident)
 		if !isId || !isCond || info.Uses[cond] != info.Defs[okId] {
 			continue
 		}
-		vals, keys, ok := w.constTable(ix.X)
+		var vals []string
+		var keys []ast.Expr
+		switch rhs := as.Rhs[0].(type) {
+		case *ast.IndexExpr:
+			if se, ok := rhs.Index.(*ast.SelectorExpr); !ok || se.Sel.Name != "Kind" {
+				continue
+			}
+			vals, keys, ok = w.constTable(rhs.X)
+		case *ast.CallExpr:
+			// the table written as a function: name, ok := basicTypeName(t.Kind)
+			fid, isId := rhs.Fun.(*ast.Ident)
+			if !isId || len(rhs.Args) != 1 {
+				continue
+			}
+			if se, isSel := rhs.Args[0].(*ast.SelectorExpr); !isSel || se.Sel.Name != "Kind" {
+				continue
+			}
+			vals, keys, ok = w.tableFunc(w.funcs[fid.Name])
+		default:
+			continue
+		}
 		if !ok {
 			continue
 		}
